@@ -90,8 +90,18 @@ class CtlQueue(queue.Queue):
         super().put(item, *a, **k)
 
     def get(self, *a, **k):
-        self.ctl.yield_point(tid(), ("get", self.qname), enabled=lambda: self.qsize() > 0)
-        r = super().get(*a, **k)
+        block = a[0] if a else k.get("block", True)
+        timeout = a[1] if len(a) > 1 else k.get("timeout")
+        if not block or timeout is not None:
+            # a non-blocking / timed get may return empty-handed at any moment: it is always enabled and, when the
+            # controller grants it on an empty queue, the timeout is deemed to have expired
+            self.ctl.yield_point(tid(), ("get", self.qname))
+            if self.qsize() == 0:
+                raise queue.Empty
+            r = super().get(False)
+        else:
+            self.ctl.yield_point(tid(), ("get", self.qname), enabled=lambda: self.qsize() > 0)
+            r = super().get(*a, **k)
         self.last_got[tid()] = self.tags.pop(0)
         return r
 
@@ -122,9 +132,18 @@ def run_real(script, losses, agent_kind, agent_seed, chooser, scripted_actions=N
             ctl.register("A")
             super().start()
 
-        def join(s, *a):
-            ctl.yield_point(tid(), ("join",), enabled=lambda: "A" not in ctl.live)
-            super().join(*a)
+        def join(s, *a, **k):
+            timeout = a[0] if a else k.get("timeout")
+            if timeout is not None:
+                # a timed join may give up while the thread is still running: always enabled; granted while the agent
+                # is alive = the timeout expired
+                ctl.yield_point(tid(), ("join",))
+                if "A" in ctl.live:
+                    return
+                super().join()
+            else:
+                ctl.yield_point(tid(), ("join",), enabled=lambda: "A" not in ctl.live)
+                super().join()
 
     class CtlRLScheduler(RLScheduler):
         def _g(self):
